@@ -131,6 +131,11 @@ var c07Trail int
 // the attribute list as they were.
 var c07Post int
 
+// c07Sloppy lays the message out the way some RFC 3489-era peers do: the last attribute without its padding, the
+// header counting only the bytes that are there. The decoder refuses such bytes today; the variant exists for a
+// library that accepts them (c07Message returns nil otherwise and the variant is skipped).
+var c07Sloppy bool
+
 func c07Build(parts []c07Part, tid [12]byte, slack int, filler func(i int) byte) []byte {
 	n := 20
 	for _, p := range parts {
@@ -378,6 +383,7 @@ type c07Case struct {
 	Seed    int64 `json:"seed"`
 	Trail   int   `json:"trail,omitempty"`
 	Post    int   `json:"post,omitempty"`
+	Sloppy  bool  `json:"sloppy,omitempty"`
 }
 
 var c07TID = [12]byte{0x5a, 0x01, 0xfe, 0x33, 0x80, 0x7f, 0x11, 0x22, 0xc3, 0xd4, 0xe5, 0xf6}
@@ -456,6 +462,20 @@ func c07Message(gi, l, class, pos, slack, filler int) *stun.Message {
 	parts := append(append(append([]c07Part{}, before...), c07Part{Type: g.Attr, Value: val}), after...)
 	raw := c07Build(parts, c07TID, max(slack, c07Trail), fill)
 	raw = raw[:len(raw)+c07Trail]
+	if c07Sloppy {
+		last := parts[len(parts)-1]
+		cut := pad4(len(last.Value)) - len(last.Value)
+		if cut == 0 {
+			return nil
+		}
+		raw = raw[: len(raw)-cut : cap(raw)]
+		raw[2], raw[3] = byte((len(raw)-20)>>8), byte(len(raw)-20)
+		m := &stun.Message{Raw: raw}
+		if m.Decode() != nil {
+			return nil
+		}
+		return m
+	}
 	m := &stun.Message{Raw: raw}
 	if err := m.Decode(); err != nil {
 		panic("c07: generated message does not decode: " + err.Error())
@@ -514,6 +534,9 @@ func (s msgSnap) diff(m *stun.Message) string {
 func c07Eval(gi, l, class, pos, slack, filler int) (out, key, detail string) {
 	g := c07Getters[gi]
 	m := c07Message(gi, l, class, pos, slack, filler)
+	if m == nil {
+		return "skipped", "", ""
+	}
 	snap := snapMsg(m)
 	if p := catch(func() { out = g.Call(m) }); p != "" {
 		return "", "panic/" + g.Name, fmt.Sprintf("%s %s; %d-byte value, position %d, capacity len+%d; message %x", g.Name, p, l, pos, slack, clip(m.Raw))
@@ -552,6 +575,21 @@ func init() {
 						}
 						if key, detail := c07Reused(gi, l, class); key != "" {
 							c.Violation(key, detail, c07Case{Getter: gi, Len: l, Class: class, Pos: -7, Pos2: -1, Seed: c.Seed})
+						}
+						// the same message as a sloppy peer would send it (skipped unless the library decodes it)
+						for pos := 0; pos < 3; pos++ {
+							c07Sloppy = true
+							c.Eval(1)
+							o2, k2, d2 := c07Eval(gi, l, class, pos, 4, 1)
+							c07Sloppy = false
+							kk := c07Case{Getter: gi, Len: l, Class: class, Pos: pos, Slack: 4, Filler: 1, Pos2: pos, Slack2: 4, Filler2: 1, Seed: c.Seed, Sloppy: true}
+							if k2 != "" {
+								c.Violation(k2, d2, kk)
+							} else if o2 != "skipped" {
+								if o1, k1, _ := c07Eval(gi, l, class, pos, 4, 1); k1 == "" && o1 != o2 {
+									c.Violation("non-local/"+g.Name, fmt.Sprintf("%s gives %q on a message whose last attribute lacks its padding (the header saying so) and %q on the same message padded", g.Name, clipS(o2), clipS(o1)), kk)
+								}
+							}
 						}
 						c.Eval(1)
 						if key, detail := c07InsideForEach(gi, l, class); key != "" {
@@ -657,9 +695,9 @@ func init() {
 				}
 				return
 			}
-			c07Trail, c07Post = k.Trail, k.Post
+			c07Trail, c07Post, c07Sloppy = k.Trail, k.Post, k.Sloppy
 			out, key, detail := c07Eval(k.Getter, k.Len, k.Class, k.Pos, k.Slack, k.Filler)
-			c07Trail, c07Post = 0, 0
+			c07Trail, c07Post, c07Sloppy = 0, 0, false
 			if key != "" {
 				c.Violation(key, detail, k)
 				return
